@@ -19,6 +19,12 @@ ID = "C03"
 LEVEL = "exploration"
 
 
+CANONICAL_ARITY = {"Jump", "Call", "Branch", "BranchBit", "BranchDebug", "BranchEdit", "BranchPerformance", "BranchScenarioNow",
+                   "BranchScenarioNowAfter", "BranchScenarioNowBefore", "BranchScenarioAfter", "BranchScenarioBefore",
+                   "BranchValue", "BranchVariable", "BranchVariation", "Case", "CaseMenu", "CaseMenu2", "CaseScenario",
+                   "CaseValue", "CaseVariable"}
+
+
 def closure_violations(comp, source):
     """The invariant itself. Returns a list of violation dicts."""
     from explorerscript.ssb_converting.ssb_special_ops import SsbLabel, SsbLabelJump, SsbForeignLabel
@@ -44,6 +50,11 @@ def closure_violations(comp, source):
             elif params[-1] not in offsets:
                 viols.append({"kind": "dangling-target", "detail": {"op": f"{name}@{op.offset}", "target": params[-1],
                                                                     "source": source}})
+            elif len(params) - 1 != lts.JUMP_INDEX[name] and name in CANONICAL_ARITY:
+                # the binary format (and the decompiler) reads the target at a fixed index: for the opcodes the language's
+                # own syntax emits, the last parameter must be at that index
+                viols.append({"kind": "target-not-at-table-index", "detail": {"op": f"{name}@{op.offset}", "params": repr(params),
+                                                                            "table_index": lts.JUMP_INDEX[name], "source": source}})
     n = len(comp.routine_ops)
     if not (len(comp.routine_infos) == n and len(comp.named_coroutines) == n):
         viols.append({"kind": "table-length", "detail": {"ops": n, "infos": len(comp.routine_infos),
